@@ -97,7 +97,8 @@ package router
 
 // Assumptions about the collaborators of handleReq (cache, limiter, prefetch, context):
 //@ func ctxDone(ctx context.Context) (done bool)
-//@   trusted
+//@   props C01
+//@   requires ctx != nil
 //@   modifies nothing
 // needPrefetch: true exactly when less than a quarter of the entry's lifetime remains (time.Until read once)
 //@ func needPrefetch(storedTime time.Time, expireTime time.Time) (need bool)
@@ -496,6 +497,7 @@ package router
 
 //@ func (r *router) handleReq(ctx context.Context, q *dnsmsg.Question, rc *RequestContext)
 //@   props C03 C10 C12 C01 C19
+//@   requires ctx != nil
 //@   requires r != nil && q != nil && rc != nil && r.cache != nil && r.cache.logger != nil && (r.cache.memory == nil || memOK(r.cache.memory)) && (r.cache.ipMarker == nil || markerOK(r.cache.ipMarker)) && (r.cache.redis == nil || redisOK(r.cache.redis)) && forall(k, 0, len(r.rules), r.rules[k] != nil && (r.rules[k].upstream == nil || uwOK(r.rules[k].upstream)))
 //@   requires r.queryCacheHitTotal != nil && r.prefetch != nil && r.prefetch.queue != nil && r.logger != nil && r.prefetchTotal != nil && r.ctx != nil && limOK(r.limiter)
 //@   modifies rc.Response.Msg, rc.Response.RuleIdx, rc.Response.Cached, rc.Response.IpMark, obj(r.prefetch.queue), field(limiter.e), field(time.Time)
@@ -543,6 +545,7 @@ package router
 
 //@ func (r *router) handleReqMsg(ctx context.Context, m *dnsmsg.Msg, rc *RequestContext)
 //@   props C03 C10 C12 C01
+//@   requires ctx != nil
 //@   requires r != nil && m != nil && rc != nil && wfMsg(m) && r.cache != nil && r.cache.logger != nil && (r.cache.memory == nil || memOK(r.cache.memory)) && (r.cache.ipMarker == nil || markerOK(r.cache.ipMarker)) && (r.cache.redis == nil || redisOK(r.cache.redis)) && forall(k, 0, len(r.rules), r.rules[k] != nil && (r.rules[k].upstream == nil || uwOK(r.rules[k].upstream)))
 //@   requires r.queryCacheHitTotal != nil && r.logger != nil && r.prefetch != nil && r.prefetch.queue != nil && r.prefetchTotal != nil && r.ctx != nil && limOK(r.limiter)
 //@   modifies rc.Response.Msg, rc.Response.RuleIdx, rc.Response.Cached, rc.Response.IpMark, obj(r.prefetch.queue), field(limiter.e), field(time.Time)
